@@ -10,7 +10,7 @@ use crate::{
 use koto_lexer::{LexedToken, Lexer, Span, StringType, Token};
 use std::{
     borrow::Cow,
-    collections::HashSet,
+    collections::{HashMap, HashSet},
     iter::Peekable,
     str::{Chars, FromStr},
 };
@@ -28,7 +28,9 @@ struct Frame {
     // At the end of a multi-assignment expression (see `finalize_id_accesses`),
     // accessed IDs that weren't locally assigned at the time of access are then counted as
     // non-local accesses.
-    pending_accesses: HashSet<ConstantIndex>,
+    // The accesses are counted, so that the access that's noted for an ID on the LHS of an
+    // assignment can be discarded without losing earlier accesses of the same ID.
+    pending_accesses: HashMap<ConstantIndex, usize>,
     pending_assignments: HashSet<ConstantIndex>,
 
     // If this is still `Some` after the expression is done parsing
@@ -57,7 +59,7 @@ impl Frame {
 
     // Declare that an id has been accessed within the frame
     fn add_id_access(&mut self, id: ConstantIndex) {
-        self.pending_accesses.insert(id);
+        *self.pending_accesses.entry(id).or_insert(0) += 1;
     }
 
     // Declare that an id is being assigned to within the frame
@@ -65,12 +67,19 @@ impl Frame {
         self.pending_assignments.insert(id);
         // While an assignment expression is being parsed, the LHS id is counted as an access
         // until the assignment operator is encountered.
-        self.pending_accesses.remove(&id);
+        // Earlier accesses of the id are kept, e.g. `x` in the condition of `if x > 0` is
+        // still pending while `x = 1` is parsed in the if's body.
+        if let Some(count) = self.pending_accesses.get_mut(&id) {
+            *count -= 1;
+            if *count == 0 {
+                self.pending_accesses.remove(&id);
+            }
+        }
     }
 
     // At the end of an expression, determine which RHS accesses are non-local
     fn finalize_id_accesses(&mut self) {
-        for id in self.pending_accesses.drain() {
+        for (id, _) in self.pending_accesses.drain() {
             if !self.ids_assigned_in_frame.contains(&id) {
                 self.accessed_non_locals.insert(id);
             }
